@@ -141,7 +141,11 @@ class Scheduler:
                         nxt = ts
                         break
                 if nxt is None:
-                    return
+                    if me.done:
+                        return
+                    # the last live thread of an aborted run must unwind too (not return from its
+                    # wait as if the wait had succeeded)
+                    raise Abort()
                 # wake everybody; they raise Abort
                 self.current = nxt
                 nxt.sem.release()
